@@ -51,6 +51,7 @@ var slotTemplates = map[string]string{
 	"attrid":        "# h {#%s}",
 	"attrclass":     "h {.%s}\n---",
 	"attrraw":       "# h {%s}",
+	"attrdatakey":   "# h {data-%s=v}\n\nh {data-a%sb=\"v\" .c}\n---",
 	"attridval":     "# h {id=%s}\n\nh {#b id=%s}\n===",
 	"linkify":       "see %s ok http://a.b/%s www.a.b/%s",
 	"strike":        "~~%s~~",
